@@ -144,17 +144,24 @@ def chain_strategy(min_len=1, max_len=4):
     return st.lists(st.sampled_from(COMPONENTS), min_size=min_len, max_size=max_len)
 
 
-def spelled_chain_strategy(min_len=1, max_len=4, bare=False):
-    """Draws {'chain': [...], 'spell': [[family, text], ...], 'joiners': [...], 'case': ...}."""
+def spelled_chain_strategy(min_len=1, max_len=4, bare=False, bare_after_half=False):
+    """
+    Draws {'chain': [...], 'spell': [[family, text], ...], 'joiners': [...], 'case': ...}.
+    bare: any quarter may be a bare two-letter quarter (clean_qq); bare_after_half: only a quarter that directly follows a half.
+    """
     @st.composite
     def build(draw):
         chain = draw(chain_strategy(min_len, max_len))
         spell = []
         joiners = []
         for i, comp in enumerate(chain):
-            fam, text = draw(st.sampled_from(spellings(comp, bare)))
+            may_be_bare = bare or (bare_after_half and i > 0 and chain[i - 1] in HALVES)
+            fam, text = draw(st.sampled_from(spellings(comp, may_be_bare)))
             text = apply_case(text, draw(st.sampled_from(CASES)))
             spell.append([fam, text])
+            if fam == "bareq" and not bare and i >= 2 and joiners[i - 2] == "":
+                # the half in front of a bare quarter is recognised at a word boundary only: not glued to the component before it
+                joiners[i - 2] = " "
             if i < len(chain) - 1:
                 j = draw(st.sampled_from(JOINERS))
                 if j == "" and not text[-1] in "24½¼":
